@@ -412,6 +412,9 @@ end
 			Receiver: "local ok, t = ch:receive()\nlocal y = t.x\n"}},
 		// one shared prototype, several states, churn
 		{Kind: "iso", Iso: &IsoSpec{Src: fmt.Sprintf(strings.Join(snippets, "\n"), 40, 7, 12), Other: otherSrc, N: 8, Churn: 3, Procs: 16, TimeoutMs: 60000}},
+		// per-state library objects: a state that changes every table it can reach (channel
+		// method table, library tables, string metatable, ...) must not be visible to any other state
+		{Kind: "lib", Lib: &LibSpec{Tag: "corpus", Mutators: 3, Inspect: 3, Rounds: 3, Procs: 8, TimeoutMs: 60000}},
 		// states sharing a prototype take different callees through one anonymous call site and
 		// read the stack trace of the uncaught error (names come from Proto.DbgCalls)
 		{Kind: "iso", Iso: &IsoSpec{Src: "local function f1() error(\"boom\") end\nlocal function f2() error(\"boom\") end\nlocal function f3() return f1() end\n" +
@@ -456,6 +459,14 @@ func genJobs(r *lib.Rand, tier string) []Job {
 	}
 	for i := 0; i < nst; i++ {
 		js = append(js, Job{Kind: "stress", Stress: genStress(r.Fork(), vol)})
+	}
+	nlib := 3
+	if tier == "thorough" {
+		nlib = 30
+	}
+	for i := 0; i < nlib; i++ {
+		js = append(js, Job{Kind: "lib", Lib: &LibSpec{Tag: fmt.Sprintf("t%x", r.U64()&0xffffff), Mutators: r.Range(2, 4), Inspect: r.Range(2, 4),
+			Rounds: r.Range(2, 4), Procs: procPool[1+r.Intn(len(procPool)-1)], TimeoutMs: 60000}})
 	}
 	return js
 }
